@@ -303,6 +303,7 @@ _EDITS = [
  ("C19", "run_consistent", "isothermal_band (a stream entered with equal supply and target temperature occupies [T, T + iso] when cold and [T - iso, T] when hot), run_consistent"),
  ("C11", "mutable_defaults_known", "no_shared_state_writes (no statement inside a function of the package assigns to an attribute of a class object, calls setattr on a class or declares a global - AST walk regenerated on every run), mutable_defaults_known"),
  ("C20", "roundtrip_closed_forms", "multipass_roundtrip (MultiPassNTU inverts MultiPassEff for every pass count: balanced streams for any effectiveness >= 0, unbalanced streams wherever the single-pass ratio is positive and the expression is defined - real powers), roundtrip_closed_forms"),
+ ("C02", "tz_balance", "utility_net_of_closure (the listed hot and cold utility duties differ from cold minus hot stream duty by at most tol whenever the allocation closes within tol on both sides, C03), tz_balance"),
  ("C18", "Oracle: 10 refrigerants x random",
   "Oracle: refrigerants (half from 10 common ones, half from every fluid of the property library with a two-phase range above -60 C, 90+ fluids) x random"),
 ]
